@@ -77,6 +77,19 @@ func C10(o *world.Obs) *Result {
 			}
 		}
 		if fromStore {
+			// a response that comes from the store is handed out as soon as the origin has answered
+			// (or failed): nothing is waited for after that - not the body of a reply that is dropped
+			{
+				last := ex.StartNs
+				for _, c := range fg {
+					if c.Completed && c.EndNs > last {
+						last = c.EndNs
+					}
+				}
+				if ex.EndNs > last {
+					r.Fail("C10", "waited-after-origin-answered", ex.Idx, "the stored response was returned %s after the last origin call of the exchange had ended; %s", secs(ex.EndNs-last), SummarizeExchange(o, ex))
+				}
+			}
 			// A store that returns only the beginning of what was written (a truncated file, a
 			// short read) can be told from one that returns everything: a stored response that
 			// ends early must not be handed out as if it were whole.
@@ -125,6 +138,11 @@ func C10(o *world.Obs) *Result {
 			if c.BodyFails() {
 				if ex.Resp.BodyErr == "" {
 					r.Fail("C10", "failed-body-presented-as-clean", ex.Idx, "the origin's body fails after %d bytes but the client read %d bytes and no error; %s", c.FailAt-1, len(ex.Resp.Body), SummarizeExchange(o, ex))
+				}
+				if !bytes.HasPrefix(c.Body, ex.Resp.Body) {
+					// whatever arrives before the failure is the beginning of the origin's body -
+					// whenever the client gets round to reading it
+					r.Fail("C10", "failed-body-foreign-bytes", ex.Idx, "the origin's body (s%d) fails part-way; the %d bytes the client read before the error are not a prefix of it (first difference at %d); %s", c.Serial, len(ex.Resp.Body), firstDiff(ex.Resp.Body, c.Body), SummarizeExchange(o, ex))
 				}
 				continue
 			}
